@@ -2,6 +2,7 @@
    Proofs_* files and followed by Print Assumptions. *)
 From Coq Require Import List ZArith Bool.
 From Verif Require Import lib.Wire gen.Consts_c11 c11.Model c11.Spec c11.Proofs c11.Proofs_Cnt c11.Proofs_Caps c11.Proofs_Life.
+From Verif Require c08.SymCrypto c08.Model c08.Proofs c08.Proofs_Env c11.ClientModel c11.SpecClient c11.Proofs_Client.
 Import ListNotations.
 Local Open Scope Z_scope.
 
@@ -136,6 +137,58 @@ Proof.
 Qed.
 Print Assumptions c11_voucher_fields_partial.
 
+(* 9. CLIENT side (client/reservation.go), for every key decoder, peer-ID derivation, voucher
+   decoder and every IDEAL signature scheme (the interface of c08.SymCrypto Part 1, shown
+   consistent there by the free term algebra): client.Reserve accepts a voucher only if the
+   bytes are an envelope whose signature was issued by a key k for exactly
+   makeUnsigned(proto.RecordDomain, proto.RecordCodec, payload), the payload decodes to the
+   voucher, voucher.Relay is the peer ID of k and voucher.Peer is the client itself.
+   (NOT checked by the code, hence not claimed: that k is the relay the client talked to;
+   the voucher's own Expiration; that a voucher is present at all.) *)
+Theorem c11_voucher_binds :
+  forall (K : Type) (key_dec : N -> c08.Model.bytes -> option K) (verify : K -> c08.Model.bytes -> c08.Model.bytes -> bool)
+         (id_of : K -> c08.Model.bytes) (dec_voucher : c08.Model.bytes -> option ClientModel.voucher)
+         (origin : c08.Model.bytes -> option (K * c08.Model.bytes)),
+  (forall k m s, verify k m s = true <-> origin s = Some (k, m)) ->
+  forall self vb rel pr ex,
+    ClientModel.check_voucher K key_dec verify id_of dec_voucher self vb = ClientModel.VAccept (rel, pr, ex) ->
+    exists b k e, vb = Some b /\ c08.Model.unmarshal_envelope K key_dec b = Some (k, e) /\
+      c08.Model.e_pt e = ClientModel.RecordCodec /\ dec_voucher (c08.Model.e_pl e) = Some (rel, pr, ex) /\
+      origin (c08.Model.e_sg e) = Some (k, c08.Model.make_unsigned ClientModel.RecordDomain ClientModel.RecordCodec (c08.Model.e_pl e)) /\
+      rel = id_of k /\ pr = self.
+Proof. exact Proofs_Client.voucher_binds_l. Qed.
+Print Assumptions c11_voucher_binds.
+
+(* nothing sealed for another domain, another record type or by another key is accepted *)
+Theorem c11_voucher_only_sealed_content :
+  forall (K : Type) (key_dec : N -> c08.Model.bytes -> option K) (verify : K -> c08.Model.bytes -> c08.Model.bytes -> bool)
+         (id_of : K -> c08.Model.bytes) (dec_voucher : c08.Model.bytes -> option ClientModel.voucher)
+         (origin : c08.Model.bytes -> option (K * c08.Model.bytes)),
+  (forall k m s, verify k m s = true <-> origin s = Some (k, m)) ->
+  forall self b k e k0 d0 t0 p0 rel pr ex,
+    c08.Model.unmarshal_envelope K key_dec b = Some (k, e) ->
+    c08.Proofs_Env.sealed_with K origin (c08.Model.e_sg e) k0 d0 t0 p0 ->
+    ClientModel.check_voucher K key_dec verify id_of dec_voucher self (Some b) = ClientModel.VAccept (rel, pr, ex) ->
+    d0 = ClientModel.RecordDomain /\ t0 = ClientModel.RecordCodec /\ dec_voucher p0 = Some (rel, pr, ex) /\
+    rel = id_of k0 /\ pr = self.
+Proof. exact Proofs_Client.voucher_sealed_l. Qed.
+Print Assumptions c11_voucher_only_sealed_content.
+
+(* Reserve() yields a reservation only for STATUS/OK with an unexpired reservation *)
+Theorem c11_client_reserve_ok :
+  forall (K : Type) (key_dec : N -> c08.Model.bytes -> option K) (verify : K -> c08.Model.bytes -> c08.Model.bytes -> bool)
+         (id_of : K -> c08.Model.bytes) (dec_voucher : c08.Model.bytes -> option ClientModel.voucher)
+         self now r ex v lim,
+    ClientModel.client_reserve K key_dec verify id_of dec_voucher self now r = ClientModel.CROk ex v lim ->
+    ClientModel.r_type r = 2 /\ ClientModel.r_status r = 100 /\ ClientModel.r_has_rsvp r = true /\
+    now <= ClientModel.r_expire r /\ ex = ClientModel.r_expire r /\
+    match v with
+    | Some vv => ClientModel.check_voucher K key_dec verify id_of dec_voucher self (ClientModel.r_voucher r) = ClientModel.VAccept vv
+    | None => ClientModel.r_voucher r = None
+    end.
+Proof. exact Proofs_Client.reserve_ok_l. Qed.
+Print Assumptions c11_client_reserve_ok.
+
 (* ---- non-vacuity -------------------------------------------------------------------------- *)
 (* the monitor accepts the model's trace of a happy history (reserve, connect, data up to
    the limit, duration limit) and rejects the refused-refresh history at the grant *)
@@ -165,3 +218,17 @@ Example monitor_rejects_connect_without_reservation :
                 13; 3; 1; 0; 1; 1; 0; 0; 1;  100; 100; 1;
                 9; 2048; 1; 1;  -1; 2; 0; -1; 0; 0; 0; 0; 0; 1; 1; 0;  1;  1; 0; 0; 0; 0] <> [].
 Proof. vm_compute. discriminate. Qed.
+
+(* client monitor: a result carrying a voucher for another peer is rejected; the toy scheme
+   used by the correspondence model is an ideal scheme *)
+Example client_monitor_rejects_wrong_peer :
+  monitor_case [2; 1000;  2; 100; 1; 5000; 1; 1; 1; 1; 1; 3; 5000; 0;   1; 0; 1; 1; 3; 5000] <> [].
+Proof. vm_compute. discriminate. Qed.
+
+Example toy_scheme_is_ideal : forall k m s,
+  SpecClient.toy_verify k m s = true <-> SpecClient.toy_origin s = Some (k, m).
+Proof.
+  intros k m s. unfold SpecClient.toy_verify, SpecClient.toy_origin. split.
+  - intros H. apply c08.Proofs.bytes_eqb_eq in H. subst s. reflexivity.
+  - destruct s as [|k' m']; [discriminate|]. intros H. inversion H; subst. apply c08.Proofs.bytes_eqb_refl.
+Qed.
